@@ -62,3 +62,18 @@ Example ex_health :
                                       {| seq := 7; vtag := 3; vk := 2 |} [(1, 0); (2, 1); (3, 2)])
   = Some {| seq := 7; vtag := 3; vk := 2 |}.
 Proof. vm_compute. repeat split. Qed.
+
+From Verif Require Import Gen.MutPins.
+From Coq Require Import String.
+(* Fingerprints (AST, comments and docstrings excluded) of the source functions this model
+   transcribes by hand, regenerated from /repo on every run (harness/translate/mutpins.py):
+   the model was written for exactly these versions of them. *)
+Theorem model_pins_current :
+  pins_C14 =
+  [("servermap_needs_merge", "b8235ef237192085")%string;
+   ("repairer_got_full_servermap", "e33495e3b72e6d99")%string;
+   ("repairer_start", "255ca0bda9aac3fb")%string;
+   ("checker_make_checker_results", "e666cc79a604f872")%string;
+   ("checker_maybe_repair", "1738b2708ce2994d")%string].
+Proof. reflexivity. Qed.
+Print Assumptions model_pins_current.
